@@ -162,6 +162,13 @@ def build_coq(prop=None):
             rc, out, err = run(["coqdep", "-Q", "theories", "Redo", "-Q", "props", "RedoProps", "-sort", os.path.join("props", prop + ".v")], cwd=COQ, timeout=60)
             files = [f for f in out.decode().split() if f.startswith("theories/")]
             targets = [re.sub(r"\.v$", ".vo", f) for f in files]
+        if not prop or "theories/Anchors.v" in files:
+            # the part of the model that is TRANSLATED from the current source
+            # (constants, transaction sites, the order of steps the protocol
+            # models assume): regenerated on every run
+            rc, out, err = run([os.path.join(VERIF, "tools", "anchors.py")], timeout=60)
+            if rc != 0:
+                raise Broken("tools/anchors.py cannot translate the current source", err.decode(errors="replace"))
         rc, out, err = run(["make", "-j%d" % NCPU] + targets, cwd=COQ, timeout=3000)
         if rc != 0:
             text = (out + err).decode(errors="replace")
